@@ -8,12 +8,16 @@
 (* type and value, other keys by ==), lists scalar keys in insertion order   *)
 (* followed by the other keys in insertion order.                            *)
 (* A key is [t, s] (type tag, source text); two keys are the same iff both   *)
-(* fields agree ([1] written twice is one key: == on arrays is structural).  *)
+(* fields agree ([1] written twice is one key: == on arrays is structural),   *)
+(* or one is a descendant the other's == accepts (Class).  The stored key is  *)
+(* the one given first.                                                        *)
 (***************************************************************************)
 EXTENDS Integers, Sequences, FiniteSets
 
 Scalar(k) == k.t \in {"int", "str", "float", "nil", "bool"}
-Same(k1, k2) == k1.t = k2.t /\ k1.s = k2.s
+(* B1 is [1].bear({}), R1 is (1:2).bear({}): descendants that `==` says are equal to [1] / (1:2) *)
+Class(k) == CASE k.s = "B1" -> [t |-> "arr", s |-> "[1]"] [] k.s = "R1" -> [t |-> "range", s |-> "(1:2)"] [] OTHER -> k
+Same(k1, k2) == Class(k1).t = Class(k2).t /\ Class(k1).s = Class(k2).s
 Has(ps, k) == \E i \in 1..Len(ps) : Same(ps[i].k, k)
 RECURSIVE FirstWins(_, _)
 (* fold the pairs in order, dropping every pair whose key was seen before *)
